@@ -65,13 +65,16 @@ def c03core (withStat : Bool) (args : List String) : String :=
           let alt1 := run (pos.map (· * (1 + e))) (mom.map (· * (1 - e))) eps
           let alt2 := run (pos.zipIdx.map fun (x, i) => x * (1 + (if i % 2 == 0 then e else -e)) + e) (mom.zipIdx.map fun (x, i) => x * (1 + (if i % 2 == 1 then e else -e))) (eps * (1 + e))
           let tol : Float := if ty = "f32" then 3e-3 else 2e-5
+          -- for long trajectories the probe perturbation is already as large as the accumulated rounding (scale > 1):
+          -- the deviation it causes may then use half of the comparison tolerance instead of a tenth
+          let thr : Float := if scale > 1 then 0.5 * tol else 0.1 * tol
           let biasOk := match runB kap, runB (-kap) with
             | some a, some b => fmtLoop a == fmtLoop st && fmtLoop b == fmtLoop st
             | _, _ => false
           let stable := biasOk && structOk && match alt1, alt2 with
             | some a, some b => fmtLoop a == fmtLoop st && fmtLoop b == fmtLoop st
-                && devOf st.pos a.pos ≤ 0.1 * tol && devOf st.pos b.pos ≤ 0.1 * tol
-                && (st.alpha - a.alpha).abs ≤ 0.1 * tol * (1 + st.alpha.abs) && (st.alpha - b.alpha).abs ≤ 0.1 * tol * (1 + st.alpha.abs)
+                && devOf st.pos a.pos ≤ thr && devOf st.pos b.pos ≤ thr
+                && (st.alpha - a.alpha).abs ≤ thr * (1 + st.alpha.abs) && (st.alpha - b.alpha).abs ≤ thr * (1 + st.alpha.abs)
             | _, _ => false
           if stable then
             id ++ " " ++ fmtLoop st ++ " # " ++ (if withStat then tokD (st.alpha / Float.ofNat st.nalpha) ++ " " else "") ++ join (st.pos.map tokD)
